@@ -19,6 +19,17 @@ operation: channel messages put on the wire (kind, datatype, size, adjust value)
 API errors, protocol errors.  The text layer separately: the model's incremental encoder / decoder for utf-8-sig,
 utf-16, utf-32, utf-16-le, utf-8 against CPython's `codecs` incremental encoder / decoder on generated write
 sequences (honest, per-write encoded, mark-less, corrupted) in random packetisations, per chunk.
+Text receivers: one decoder PER DATA TYPE (Model/ChannelDecode.lean; theorems text_per_datatype_as_written /
+text_per_datatype_end_to_end: text per data type is a function of the bytes per data type, whatever is interleaved;
+no_decode_error_after_local_close: after the application's close() no event raises a decode error), with the
+behaviour before the repairs 7b04301 / 9fcdbb2 kept as `Variant.preFix` and witness theorems
+(shared_decoder_breaks_split_character_preFix, close_midchar_then_eof_fatal_preFix); a second `shell` request
+(repair b98700f: refused; witness second_session_request_delivered_behind_pause_preFix) and the layer-3 tunnel channel
+(Model/ChannelVariants.lean; tun_packet_cut_at_window_edge_loses_bytes is a witness of a defect that is NOT repaired).
+The scripted cases include: a bytes sender whose data types are each valid UTF-8 but interleaved in the middle of a
+character; a text receiver closing in the middle of a character while the honest peer goes on to EOF / CLOSE; a
+second `shell` request in mid-stream (also against a server session written with the stream API); layer-3 tunnel
+packets against small windows (props/_channel_audit.py).
 Oracle: (also: real two-endpoint TEXT sessions in utf-16, utf-32, utf-8-sig, utf-16-le/-be, utf-32-be, latin-1,
 utf-8 errors='replace' — several writes per direction, empty writes between, astral characters, stderr, windows and
 packet sizes down to 1, EOF — text received == text written, failure names encoding and writes) bytes delivered == bytes written per channel and datatype (order across datatypes included), nothing ever
@@ -35,6 +46,7 @@ import vlib
 from vlib import Ctx, CorrResult, OracleResult, Failure, Disagreement, Hist, hx
 
 import translate as T
+from props import _channel_audit as A
 from props import _channel_gen as G
 from props import _channel_lib as L
 from props import _channel_oracle as O
@@ -51,10 +63,18 @@ MANIFEST = {
             '— and when CLOSE overtakes the EOF at the receiver — fix 024eb80; the old behaviours are kept as witness '
             'theorems about the old functions); UTF-8 decoding independent of packet boundaries (byte-exact incremental decoder, round trip for every '
             'scalar value); the encodings whose codec keeps state across writes (utf-8-sig, utf-16, utf-32; also utf-16-le, '
-            'utf-8 in the same frame): one incremental encoder per channel emits the byte order mark once, one '
-            'incremental decoder consumes it once — for every sequence of writes and every packetisation the text '
+            'utf-8 in the same frame): one incremental encoder per data type emits the byte order mark once, one '
+            'incremental decoder per data type consumes it once — for every sequence of writes and every packetisation the text '
             'delivered is the text written, write by write (text_as_written_every_packetisation), with the witness that '
             'encoding each write on its own delivers U+FEFF in front of every later write; '
+            'text receivers keep one decoder per data type: the text delivered with each data type is a function of '
+            'the bytes written with it, whatever packets of other data types arrive in between, also in the middle of '
+            'a character (text_per_datatype_as_written, text_per_datatype_end_to_end; before repair 7b04301 one '
+            'decoder was shared: witness shared_decoder_breaks_split_character_preFix); after the application\'s '
+            'close() no event raises a decode error (no_decode_error_after_local_close; before repair 9fcdbb2 the '
+            'honest peer\'s EOF did: witness close_midchar_then_eof_fatal_preFix); a second shell / exec / subsystem '
+            'request is refused (tie second_session_request_refused, witness for the code before repair b98700f); '
+            'layer-3 tunnel packets cut at the window edge lose bytes (witness, not repaired: known finding); '
             'per-channel projection of a multiplexed run. The model is tied to the code by the translator '
             '(send-loop arithmetic from the AST) and by a differential run against two real endpoints driven packet by '
             'packet.',
@@ -62,7 +82,9 @@ MANIFEST = {
             'UTF-16-LE, UTF-32-LE and their mark-framed forms are not modelled (big-endian forms, 8-bit code pages, error '
             'handlers other than strict: exercised by the oracle on real text sessions only); CPython codecs are tied '
             'to the byte machines by the correspondence run, not proved; pause_writing/resume_writing '
-            'callbacks and channel requests are not modelled; abort() is not modelled',
+            'callbacks are not modelled; of the channel requests only a second shell request on a running channel '
+            '(refused, no effect) is; abort() is not modelled; the layer-3 tunnel channel is modelled at one endpoint '
+            '(accounting of the stripped address family) and exercised end to end by the oracle only',
     'technique': 'Lean 4 proof (invariants by induction over the event sequence of a two-endpoint transition system) '
                  '+ translator for the integer expressions + differential correspondence on real client/server pairs '
                  '+ end-state oracle',
@@ -222,8 +244,8 @@ def correspondence(ctx: Ctx) -> CorrResult:
     res = CorrResult()
     hist = Hist()
     plan = [('stream', ctx.n(260, 3000)), ('tiny', ctx.n(110, 1500)), ('multi', ctx.n(90, 1200)),
-            ('starting', ctx.n(110, 1500))]
-    cases: List[Dict[str, Any]] = []
+            ('starting', ctx.n(110, 1500)), ('textclose-dec', ctx.n(60, 800))]
+    cases: List[Dict[str, Any]] = [c for c in audit_cases() if not c['chans'][0].get('enc')]
     for prof, n in plan:
         rng = ctx.subrng('corr:' + prof)
         cases += [L.gen_case(rng, prof) for _ in range(n)]
@@ -353,6 +375,54 @@ def text_cases() -> List[Dict[str, Any]]:
     return out
 
 
+def audit_cases() -> List[Dict[str, Any]]:
+    """directed cases for the audit findings D1 (decoder shared by stdout and stderr), D3 (close() in the middle of
+    a character, then the honest peer's EOF / CLOSE), D2 (second shell request while the server application has
+    paused reading)"""
+    base = {'wa': 1 << 21, 'pa': 32768, 'wb': 1 << 21, 'pb': 32768, 'keepA': True, 'keepB': True, 'pausedA': 'n',
+            'decA': False, 'decB': False}
+    euro3 = hx('€€€'.encode('utf-8'))
+    out = []
+    # D1: bytes server (a process' pipes relayed), text client: stdout "€\n" cut after E2 82, stderr "E" in between
+    out.append({'profile': 'directed', 'chans': [dict(base, decA=True)], 'ops': [
+        ['app', 'b', 0, 'write', None, 'e282'], ['app', 'b', 0, 'write', 1, '45'], ['app', 'b', 0, 'write', None, 'ac0a'],
+        ['deliver', 'a'], ['deliver', 'a'], ['deliver', 'a'], ['app', 'b', 0, 'eof'], ['deliver', 'a']]})
+    out.append({'profile': 'directed', 'chans': [dict(base, decA=True)], 'ops': [
+        ['app', 'b', 0, 'write', 1, 'f09f'], ['app', 'b', 0, 'write', None, '6f6b0a'], ['app', 'b', 0, 'write', 1, '9880'],
+        ['deliver', 'a'], ['deliver', 'a'], ['deliver', 'a']]})
+    # D3: the client advertises maximum packet size 4: "€€€" travels as E2 82 AC E2 | 82 AC E2 82 | AC; the
+    # application closes after the first packet; the server goes on and sends EOF (or closes)
+    for ending in (['eof'], ['close'], ['eof', 'close']):
+        for cfg in (dict(base, pa=4, enc='utf-8', errors='strict'), dict(base, pa=4, decA=True)):
+            out.append({'profile': 'directed', 'chans': [dict(cfg)], 'ops': [
+                ['app', 'b', 0, 'write', None, euro3], ['deliver', 'a'], ['app', 'a', 0, 'close'], ['deliver', 'a'],
+                ['deliver', 'a'], ['deliver', 'b']] + [['app', 'b', 0, e] for e in ending] +
+                [['deliver', 'a'], ['deliver', 'a'], ['deliver', 'a'], ['deliver', 'b']]})
+    # ... the same towards the server (stdin), and with a second, innocent channel on the connection
+    out.append({'profile': 'directed', 'chans': [dict(base, pb=4, decB=True), dict(base)], 'ops': [
+        ['app', 'a', 0, 'write', None, euro3], ['deliver', 'b'], ['app', 'b', 0, 'close'], ['deliver', 'b'],
+        ['deliver', 'b'], ['deliver', 'a'], ['app', 'a', 0, 'eof'], ['deliver', 'b'], ['deliver', 'b'],
+        ['app', 'a', 1, 'write', None, '6f6e650a'], ['deliver', 'b']]})
+    # D2: the server application pauses, 10 bytes arrive and wait; the client sends a second shell request
+    out.append({'profile': 'directed', 'chans': [dict(base, wb=100, pb=32)], 'ops': [
+        ['app', 'b', 0, 'pause'], ['app', 'a', 0, 'write', None, '30313233343536373839'], ['deliver', 'b'],
+        ['req', 'a', 0], ['deliver', 'b'], ['app', 'a', 0, 'write', None, '6162636465'], ['deliver', 'b'],
+        ['deliver', 'a']]})
+    return out
+
+
+def order_failures(fails: List[Failure]) -> List[Failure]:
+    """the first failure of every signature first (the runner prints the first few), then the rest"""
+    first, rest, seen = [], [], set()
+    for f in fails:
+        if f.signature in seen:
+            rest.append(f)
+        else:
+            seen.add(f.signature)
+            first.append(f)
+    return first + rest
+
+
 def oracle(ctx: Ctx) -> OracleResult:
     res = OracleResult()
     hist = Hist()
@@ -362,11 +432,29 @@ def oracle(ctx: Ctx) -> OracleResult:
             todo.append(s['case'])
     todo += f13_cases()
     todo += text_cases()
+    todo += audit_cases()
     for prof, n in [('stream', ctx.n(160, 2500)), ('tiny', ctx.n(80, 1200)), ('multi', ctx.n(60, 900)),
-                    ('starting', ctx.n(80, 1200)), ('textenc', ctx.n(150, 2500))]:
+                    ('starting', ctx.n(80, 1200)), ('textenc', ctx.n(150, 2500)), ('textclose', ctx.n(60, 900))]:
         rng = ctx.subrng('oracle:' + prof)
         todo += [L.gen_case(rng, prof) for _ in range(n)]
+    # other session kinds: layer-3 tunnel channels; a stream-API server session and a second shell request
+    arng = ctx.subrng('oracle:audit')
+    scen = A.tun_cases() + A.second_shell_cases() + [A.gen_tun(arng) for _ in range(ctx.n(25, 400))] + \
+        [A.gen_second_shell(arng) for _ in range(ctx.n(15, 250))]
     seen = set()
+    for case in scen:
+        out = A.run_scenario(case)
+        res.evaluations += 1
+        hist.hit('profile:' + case['kind'])
+        fails = A.check_scenario(PROPERTY, case, out)
+        for f in fails:
+            hist.hit('failure:' + f.signature)
+            if f.signature not in seen and case['kind'] == 'tun':
+                seen.add(f.signature)
+                f.replay['case'] = A.shrink_tun(PROPERTY, f.replay['case'], f.signature)
+            res.failures.append(f)
+        if not out.get('error') and (out.get('got') or out.get('handlers')):
+            res.nontrivial += 1
     for case in todo:
         real = L.run_case(case, drain=True)
         res.evaluations += 1
@@ -387,8 +475,10 @@ def oracle(ctx: Ctx) -> OracleResult:
         if len(res.samples) < 3 and real.get('drained'):
             res.samples.append({'chans': case['chans'], 'ops': case['ops'][:5],
                                 'delivered': {s: [len(e) for e in real['events'][s]] for s in 'ab'}})
+    res.failures = order_failures(res.failures)
     res.histogram = dict(hist)
-    res.rule = 'non-trivial = drained run in which some session received callbacks'
+    res.rule = ('non-trivial = drained run in which some session received callbacks; tunnel / stream-session scenario '
+                'in which the reading application received data')
     return res
 
 
@@ -413,4 +503,6 @@ def replay(ctx: Ctx, rep: Dict[str, Any]) -> List[Failure]:
                 break
     if not case:
         return []
+    if 'kind' in case:
+        return A.check_scenario(PROPERTY, case, A.run_scenario(case))
     return O.check_c07(case, L.run_case(case, drain=True))
